@@ -455,6 +455,45 @@ Definition history_ok (rs singles : list (option (res output))) : bool := histor
 Definition get_step (v : val) : option step :=
   match v with VL [e; o] => olet e := get_pairs e in olet o := get_texts o in Some (e, o) | _ => None end.
 
+(* ------------------------------------------------------------------ raise sites: the reference (hand-written)
+   what each site outside httpexceptions.py hands to the exception constructor; the regenerated
+   gen_site_* (Gen/Facts_C19.v) are proved equal.  No site passes a body template. *)
+Definition n_HTTPNotFound : text := [72; 84; 84; 80; 78; 111; 116; 70; 111; 117; 110; 100].
+Definition n_HTTPMovedPermanently : text := [72; 84; 84; 80; 77; 111; 118; 101; 100; 80; 101; 114; 109; 97; 110; 101; 110; 116; 108; 121].
+Definition n_HTTPTemporaryRedirect : text := [72; 84; 84; 80; 84; 101; 109; 112; 111; 114; 97; 114; 121; 82; 101; 100; 105; 114; 101; 99; 116].
+Definition s_out_of_bounds : text := [79; 117; 116; 32; 111; 102; 32; 98; 111; 117; 110; 100; 115; 58; 32].
+Definition with_qs (base qs : text) : text := if is_nil qs then base else base ++ [63] ++ qs.
+Definition site_router (r : req) : raised := mkRaised n_HTTPNotFound (Some (r_path_info r)) [] None.
+Definition site_static_missing (r : req) : raised := mkRaised n_HTTPNotFound (Some (r_url r)) [] None.
+Definition site_static_oob (r : req) : raised := mkRaised n_HTTPNotFound (Some (s_out_of_bounds ++ r_url r)) [] None.
+Definition site_static_slash (r : req) : raised :=
+  mkRaised n_HTTPMovedPermanently None (with_qs (r_path_url r ++ [47]) (r_query_string r)) None.
+Definition site_append_slash (r : req) : raised :=
+  mkRaised n_HTTPTemporaryRedirect None (with_qs (r_path r ++ [47]) (r_query_string r)) None.
+
+Definition site_ref (name : text) : option (req -> raised) :=
+  if text_eqb name [114; 111; 117; 116; 101; 114] then Some site_router
+  else if text_eqb name [115; 116; 97; 116; 105; 99; 95; 109; 105; 115; 115; 105; 110; 103] then Some site_static_missing
+  else if text_eqb name [115; 116; 97; 116; 105; 99; 95; 111; 111; 98] then Some site_static_oob
+  else if text_eqb name [115; 116; 97; 116; 105; 99; 95; 115; 108; 97; 115; 104] then Some site_static_slash
+  else if text_eqb name [97; 112; 112; 101; 110; 100; 95; 115; 108; 97; 115; 104] then Some site_append_slash
+  else None.
+Definition site_gen (name : text) : option (req -> raised) :=
+  if text_eqb name [114; 111; 117; 116; 101; 114] then Some gen_site_router
+  else if text_eqb name [115; 116; 97; 116; 105; 99; 95; 109; 105; 115; 115; 105; 110; 103] then Some gen_site_static_missing
+  else if text_eqb name [115; 116; 97; 116; 105; 99; 95; 111; 111; 98] then Some gen_site_static_oob
+  else if text_eqb name [115; 116; 97; 116; 105; 99; 95; 115; 108; 97; 115; 104] then Some gen_site_static_slash
+  else if text_eqb name [97; 112; 112; 101; 110; 100; 95; 115; 108; 97; 115; 104] then Some gen_site_append_slash
+  else None.
+(* the exception a site raises, called with the environ of the request being answered *)
+Definition input_of (ra : raised) (environ : list (text * text)) (ofs : list text) : input :=
+  mkInput (ra_cls ra) (ra_detail ra) None None (ra_location ra) [] environ (ra_tmpl ra) ofs.
+Definition get_req (v : val) : option req :=
+  match v with
+  | VL [VT a; VT b; VT c; VT d; VT e] => Some (mkReq a b c d e)
+  | _ => None
+  end.
+
 (* ext = [formatter?; content_type kw?; charset kw?], formatter = [[key; source] ...]
    case = [cls; detail?; comment?; explanation?; location; headers; environ; body_template?; offers; ext]
    answer = [model; spec; spec_type]
@@ -477,6 +516,12 @@ Definition run_C19 (v : val) : val :=
         let i := mkInput c d cm ex loc hs en tm ofs in
         olet x := get_ext i ext in
         Some (VL [put_res (model_x x); put_res (spec_x x); VT (spec_type i)])
+    | VL [site; rq; en; ofs] =>
+        (* site case = [site name; [url; path; path_info; path_url; query_string]; environ; offers] *)
+        olet site := get_text site in olet rq := get_req rq in olet en := get_pairs en in olet ofs := get_texts ofs in
+        olet g := site_gen site in olet f := site_ref site in
+        Some (VL [put_res (model (input_of (g rq) en ofs)); put_res (spec (input_of (f rq) en ofs));
+                  VT (spec_type (input_of (f rq) en ofs))])
     | VL [c; d; cm; ex; loc; hs; tm; steps; ext] =>
         olet c := get_text c in olet d := get_opt get_text d in olet cm := get_opt get_text cm in
         olet ex := get_opt get_text ex in olet loc := get_text loc in olet hs := get_pairs hs in
